@@ -90,6 +90,8 @@ C18HeightJob ==
   /\ Report("C18_HMonotone", {j \in 1..(Len(hs) - 1) : hs[j].h <= hs[j + 1].h /\ hs[j].val > hs[j + 1].val})
   /\ Report("C18_Neighbours", {j \in DOMAIN nb : ~C18_NbOK(nb[j])})
   /\ Report("C18_NeighboursNeverUp", {j \in DOMAIN nb : ~C18_NbNeverUp(nb[j])})
+  /\ Report("C18_NearBoundaryFloor", {j \in DOMAIN Job.near : ~(Job.near[j].len = 3 /\ Job.near[j].val = HCode(Job.near[j].h100))})
+  /\ Report("C18_NearBoundaryNeverUp", {j \in DOMAIN Job.near : CodeValue100(Job.near[j].val) > Job.near[j].h100})
   /\ Report("C18_HComplete", IF Len(hs) = Job.nhs /\ Len(nb) = Job.nnb THEN {} ELSE {-1})
 
 (* okta2code: oc[j] = [o, k ("ok"|"none"|"refuse"|"other"), c (char codes)], non-integers ni[j] = [what, k] *)
